@@ -6,7 +6,7 @@ patch="$1"; shift
 cd /repo || exit 2
 if ! git diff --quiet; then echo "seedtest: /repo has uncommitted changes, refusing" >&2; exit 2; fi
 git apply "$patch" || { echo "seedtest: patch does not apply" >&2; exit 2; }
-trap 'git -C /repo checkout -- . ; echo "[seedtest] /repo restored: $(git -C /repo status --short | wc -l) modified files"' EXIT
+trap 'git -C /repo checkout -- . ; echo "[seedtest] /repo restored: $(git -C /repo status --short | grep -v _build | wc -l) modified files"; for v in san rel cplx tsan; do [ -d /verif/build/$v ] && /verif/bin/build.sh $v >/dev/null 2>&1; done; echo "[seedtest] libraries rebuilt from the restored tree"' EXIT
 cd /verif
 for p in "$@"; do
   python3 bin/run_check.py --property "$p" --tier "${SEED_TIER:-quick}" 2>&1 | grep -v conda | grep "^property=\|^VIOLATION\|ENGINE\|   key=\|   what=" | cut -c1-330
